@@ -24,6 +24,7 @@ from translate import astutil, tr_handles
 
 KEY_ROLLBACK = "rollback_handle:descendant-behind-invalid-row-stays-valid"
 KEY_CSE = "_get_cache:CSE-hit-replays-invalidated-handle"
+KEY_NOROLLBACK = "_exec_job_main_thread:executing-job-does-not-roll-back-its-handle-argument"
 NS = "c25"
 
 
@@ -356,8 +357,8 @@ def small_scope_histories(max_len):
     s4 -> s2 (advances re-derive the same states) and rollbacks to s0, s1, s2, s4."""
     base = [["init", 0, 0], ["init", 0, 1]]           # pool 0 = s0, pool 1 = s4
     pre = [["call", 0, "c1"], ["call", 2, "c2"], ["call", 3, "c3"]]   # pool 2 = s1, 3 = s2, 4 = s3
-    alphabet = [["adv", [0], 2], ["adv", [2], 3], ["adv", [3], 4], ["adv", [1], 3],
-                ["rb", 0], ["rb", 2], ["rb", 3]]
+    alphabet = [["adv", [0], 2], ["adv", [2], 3], ["adv", [1], 3], ["rb", 0], ["rb", 2], ["adv", [3], 4],
+                ["rb", 3]][:(6 if max_len <= 3 else 7)]
     for n in [max_len]:      # every op is observed, so the maximal histories cover their prefixes
         for combo in itertools.product(alphabet, repeat=n):
             yield base + pre + [list(o) for o in combo]
@@ -411,6 +412,21 @@ def mutate(rng, runs):
     return prog, ver
 
 
+CACHELESS = ["run", "cache_false", "CSE", "NONE"]
+
+
+def cacheless_histories():
+    """normal run -> a handle-writing task is edited and executed without the backend cache
+    (scheduler.run(cache=False), @task(cache=False), cache_scope CSE / NONE) -> edit reverted, normal run."""
+    shapes = [([["init", 0], ["step", 0, 0, 0]], 0),
+              ([["init", 0], ["step", 0, 0, 0], ["step", 1, 1, 0]], 0),
+              ([["init", 0], ["step", 0, 0, 0], ["step", 1, 0, 0], ["merge", [1, 2]], ["step", 2, 3, 0]], 1)]
+    for k, (prog, t) in enumerate(shapes):
+        for m in (CACHELESS if k != 1 else CACHELESS[:1]):
+            opts = {"run_cache": False} if m == "run" else {"task_opts": {str(t): m}}
+            yield [[prog, {}, {}], [prog, {str(t): 1}, opts], [prog, {}, {}]]
+
+
 class WfWorld:
     """One scheduler over one in-memory backend; runs generated programs; observes _get_cache."""
 
@@ -442,6 +458,20 @@ class WfWorld:
                 self.inspect_replay(job, result)
             return result, is_cached, call_hash
         self.s._get_cache = get_cache
+        # which backend ops belong to the job being started; which jobs really execute
+        self.cur_start = 0
+        self.norollback = 0
+        orig_exec = self.s._exec_job_main_thread
+
+        def exec_job(job, eval_args):
+            self.cur_start = len(self.tr.trace)
+            return orig_exec(job, eval_args)
+        self.s._exec_job_main_thread = exec_job
+        for ex in self.s.executors.values():
+            def submit(job, _orig=ex.submit):
+                self.on_submit(job)
+                return _orig(job)
+            ex.submit = submit
 
     def inspect_replay(self, job, result):
         from redun import Handle
@@ -456,8 +486,10 @@ class WfWorld:
                 continue
             ct = getattr(self.last_cache_type, "name", str(self.last_cache_type))
             if impl:
-                key, what = KEY_ROLLBACK, (f"the cached result of {job.task.fullname} was replayed although it contains a handle "
-                                           f"state that the reference lineage model has invalidated (rollback_handle kept it valid)")
+                # the tables kept the state valid: same root cause as the first table/reference mismatch of this history
+                root = self.tr.mismatch[0] if self.tr.mismatch else "replay:state-valid-in-tables-invalid-in-reference"
+                key, what = root, (f"the cached result of {job.task.fullname} was replayed although it contains a handle "
+                                   f"state that the reference lineage model has invalidated (the tables kept it valid)")
             elif ct == "CSE":
                 key, what = KEY_CSE, (f"a CSE hit replayed the result of {job.task.fullname} although it contains a handle state "
                                       f"that was rolled back (is_valid_handle is False)")
@@ -466,14 +498,50 @@ class WfWorld:
                     f"a {ct} cache hit replayed the result of {job.task.fullname} although it contains an invalid handle state")
             self.replays.append((key, what, {"task": job.task.fullname, "cache_type": ct}))
 
-    def run(self, prog, ver):
+    def on_submit(self, job):
+        """A job is handed to an executor, i.e. its task body will really run on the (forked) handle
+        states among its arguments.  The lineage model says that deriving a new state from a state
+        supersedes every state derived from it before, whatever the job's cache scope is: the scheduler
+        must have rolled each of them back during this _exec_job_main_thread call (main thread)."""
+        from redun import Handle
+        from redun.value import iter_nested_value
+        if self.s._dryrun:
+            return
+        tr = self.tr
+        since = tr.trace[self.cur_start:]
+        for v in iter_nested_value(job.args):
+            if not isinstance(v, Handle):
+                continue
+            x = v.__handle__.hash
+            if any(j[0] == "rb" and j[1] == x for _, j, _ in since):
+                continue
+            stale = tr.ref.descendants(x) & tr.ref.V
+            tr.ref.rollback(x)
+            self.norollback += 1
+            if stale and not tr.mismatch:
+                scope = job.get_option("cache_scope", None)
+                tr.mismatch = (KEY_NOROLLBACK,
+                               f"{job.task.fullname} (cache_scope={getattr(scope, 'name', scope)}) executes on handle state "
+                               f"#{tr.ids.get(x)} without rolling it back: {len(stale)} state(s) derived from it earlier "
+                               f"(e.g. #{min(tr.ids[s] for s in stale)}) stay valid although the reference lineage model "
+                               f"invalidates them",
+                               {"task": job.task.fullname, "state": tr.ids.get(x), "stale": sorted(tr.ids[s] for s in stale)})
+
+    def run(self, prog, ver, opts=None):
+        """opts: {"run_cache": False} runs with scheduler.run(cache=False); {"task_opts": {t: mode}} defines step t
+        with cache=False ("cache_false") or cache_scope "CSE" / "NONE"."""
         from redun import merge_handles, task
         H = _handle_class()
         calls = self.calls
+        opts = opts or {}
+        modes = {int(k): m for k, m in (opts.get("task_opts") or {}).items()}
         steps = {}
         for t in range(4):
             def mk(t=t, v=ver.get(t, 0)):
-                @task(name=f"step{t}", namespace=NS, version=str(v))
+                m = modes.get(t)
+                kw = {} if m is None else ({"cache": False} if m == "cache_false" else {"cache_scope": m})
+
+                @task(name=f"step{t}", namespace=NS, version=str(v), **kw)
                 def step(conn, label):
                     calls.append((t, v, label))
                     return conn
@@ -499,16 +567,16 @@ class WfWorld:
             return [vals[-1], vals[1:]]
 
         del calls[:]
-        self.s.run(main())
+        self.s.run(main(), **({"cache": False} if opts.get("run_cache") is False else {}))
         return list(calls)
 
 
 def run_workflow_history(world, runs):
     w = WfWorld(world)
     per_run = []
-    for prog, ver in runs:
-        ver = {int(k): v for k, v in ver.items()}
-        per_run.append(w.run(prog, ver))
+    for run in runs:
+        prog, ver = run[0], {int(k): v for k, v in run[1].items()}
+        per_run.append(w.run(prog, ver, run[2] if len(run) > 2 else None))
     w.tr.finish()
     return w, per_run
 
@@ -598,15 +666,24 @@ class Check(PropertyCheck):
         cases = []
         for doc in self.corpus():
             cases.append((doc["kind"], doc["ops"] if doc["kind"] == "backend" else doc["runs"]))
+        for runs in cacheless_histories():
+            cases.append(("workflow", runs))
         for ops in small_scope_histories(3 if quick else 4):
             cases.append(("backend", ops))
-        for _ in range(300 if quick else 4000):
+        for _ in range(150 if quick else 4000):
             cases.append(("backend", gen_backend_history(self.rng, self.rng.randint(4, 16))))
-        for _ in range(30 if quick else 300):
+        for _ in range(12 if quick else 300):
             runs = [(gen_program(self.rng), {})]
             for _ in range(self.rng.randint(2, 5)):
                 runs.append(mutate(self.rng, runs))
-            cases.append(("workflow", [[p, {str(k): v for k, v in vr.items()}] for p, vr in runs]))
+            payload = []
+            for i, (p, vr) in enumerate(runs):
+                opts = {}
+                if i and self.rng.random() < 0.3:       # a cache-less run, or a cache-less variant of one task
+                    m = self.rng.choice(CACHELESS)
+                    opts = {"run_cache": False} if m == "run" else {"task_opts": {str(self.rng.randrange(4)): m}}
+                payload.append([p, {str(k): v for k, v in vr.items()}, opts])
+            cases.append(("workflow", payload))
         self._cases = cases
         return cases
 
@@ -622,7 +699,7 @@ class Check(PropertyCheck):
                     tr = run_backend_history(world, payload)
                     extra = []
                 else:
-                    w, per_run = run_workflow_history(world, [(p, v) for p, v in payload])
+                    w, per_run = run_workflow_history(world, payload)
                     tr, extra = w.tr, w.replays[:1]
                     self.stat("workflow_runs", len(payload))
                     self.stat("workflow_task_executions", "total", sum(len(c) for c in per_run))
@@ -704,7 +781,7 @@ class Check(PropertyCheck):
                     tr = run_backend_history(world, r["ops"])
                     found = [tr.mismatch] if tr.mismatch else []
                 else:
-                    w, per_run = run_workflow_history(world, [(p, v) for p, v in r["runs"]])
+                    w, per_run = run_workflow_history(world, r["runs"])
                     found = ([w.tr.mismatch] if w.tr.mismatch else []) + w.replays
                     for i, c in enumerate(per_run):
                         print(f"replay: run {i} executed {c}")
